@@ -18,7 +18,7 @@ RULE = {"C18": "units: all 64 ordered triples of the four defined units x a valu
                "(sensor, reading, parameters)."}
 REQUIRED = {"C18": {"triple-checked": 64, "user-chain-checked": 300, "named-ratio": 3, "sonar-pulse": 400, "sonar-analog": 400, "sonar-user-defined-output-unit": 100,
                     "pressure-positive": 400, "pressure-floor": 20, "pressure-never-raises": 400, "pressure-vcc-zero": 5,
-                    "calibrate-roundtrip": 300}}
+                    "calibrate-roundtrip": 300, "user-chain-deeper-than-10": 100, "sonar-same-raw-reading-as-previous-sonar": 300}}
 ASSUMPTIONS = {"C18": ["results whose exact rational value lies outside [1e-290, 1e290] are not compared (overflow/underflow is 'floating-point rounding')",
                        "Counter.getPeriod has no simulator setter: the driver's counter attribute is replaced by a stub with getPeriod(), as the repository's own test does"]}
 
@@ -60,7 +60,13 @@ def build_units(rng, units_mod, spec=None):
     out = [Chain(U.meter, F["meter"], "m", 0, "meter"), Chain(U.centimeter, F["centimeter"], "m", 1, "centimeter"),
            Chain(U.foot, F["foot"], "m", 1, "foot"), Chain(U.inch, F["inch"], "m", 2, "inch")]
     plan = spec if spec is not None else []
-    if spec is None:
+    if spec is None and rng.random() < 0.2:
+        # one long linear chain stacked on a stock unit (e.g. a drivetrain's encoder ticks -> rotations -> ... ), 8-24 deep
+        parent = rng.randrange(0, 4)
+        for i in range(rng.randrange(8, 25)):
+            plan.append([parent, rng.choice([2.0, 0.5, 10.0, 12.0, 3.0, 0.3048, -1.0, 0.1, 4.0])])
+            parent = 4 + i
+    elif spec is None:
         for i in range(rng.randrange(1, 7)):
             parent = rng.randrange(-1, len(out) + len(plan))       # -1: fresh root
             k = rng.choice([2.0, 0.5, 10.0, 12.0, 3.0, 0.3048, 1e3, 1e-3, 1609.344, -1.0, rng.uniform(0.01, 100)])
@@ -143,6 +149,8 @@ def run_units_case(acc, U, case):
         acc.ev("user-chain-checked")
         if a.depth + b.depth >= 6:
             acc.ev("user-chain-deep")
+        if max(a.depth, b.depth) > 10:
+            acc.ev("user-chain-deeper-than-10")
         e = Fraction(x) * a.factor / b.factor
         if not _in_range(e) or not _in_range(e * k):
             continue
@@ -223,6 +231,8 @@ def run_sensor_case(acc, case):
     S = sensor_objects()
     k = case["kind"]
     acc.evaluations += 1
+    if case.get("same_raw_as_previous_sonar"):
+        acc.ev("sonar-same-raw-reading-as-previous-sonar")
     if k == "pulse":
         s, stub = S["pulse"][case["unit"]]
         stub.period = case["x"]
@@ -322,6 +332,20 @@ def gen_sensor_case(rng):
     return {"kind": "pressure", "sensor": rng.randrange(3), "x": v, "vcc": vcc, "cal": cal}
 
 
+def gen_sensor_seq(rng, n):
+    """n sensor cases; a sonar now and then sees exactly the raw reading another sonar (other unit, other class) just had."""
+    prev = None
+    for i in range(n):
+        case = gen_sensor_case(rng)
+        case["mode"] = "sensors"
+        if case["kind"] in ("pulse", "analog"):
+            if prev is not None and rng.random() < 0.3:
+                case["x"] = prev
+                case["same_raw_as_previous_sonar"] = True
+            prev = case["x"]
+        yield case
+
+
 def run_shard(spec):
     rng = random.Random(spec["seed"])
     acc = Acc()
@@ -344,9 +368,8 @@ def run_shard(spec):
             if i == 0:
                 acc.samples.append({"mode": "units", "user_chain_plan": case["plan"]})
     else:
-        for i in range(spec["n"]):
-            case = gen_sensor_case(rng)
-            case["mode"] = "sensors"
+        for i, case in enumerate(gen_sensor_seq(rng, spec["n"])):
+            case["hist"] = [spec["seed"], i]
             run_sensor_case(acc, case)
             if i < 2:
                 acc.samples.append({k: repr(v) for k, v in case.items()})
@@ -361,5 +384,17 @@ def replay(pid, case):
             run_units_case(Acc(), U, {"mode": "units", "kind": "chains", "cseed": h["cseed"], "plan": h["plan"]})
         run_units_case(acc, U, case)
     else:
+        if "hist" in case:
+            # first behind the sensor cases that preceded it in its shard (running it alone first could itself leave
+            # state behind in the drivers), then alone
+            seed, idx = case["hist"]
+            for c in gen_sensor_seq(random.Random(seed), idx):
+                run_sensor_case(Acc(), c)
+            run_sensor_case(acc, case)
+            if acc.violations:
+                acc.violations[0]["detail"] = dict(acc.violations[0].get("detail") or {},
+                                                   replayed=f"behind the {idx} sensor cases generated before it from shard seed {seed}")
+                return acc.violations[0]
+            acc = Acc()
         run_sensor_case(acc, case)
     return acc.violations[0] if acc.violations else None
